@@ -563,6 +563,36 @@ def _length_fact(r: Resolver, cfg, n, sub, name: str, need: int) -> tuple[bool, 
     return False, ""
 
 
+_CG_CACHE: dict = {}
+
+
+def _callgraph(p) -> CallGraph:
+    cg = p.__dict__.get("_cg")
+    if cg is None:
+        cg = CallGraph(p)
+        p.__dict__["_cg"] = cg
+        p.__dict__["_may_raise"] = {}
+    return cg
+
+
+def _may_raise(cg: CallGraph, q: str, depth: int = 0, seen: set | None = None) -> bool:
+    memo = cg.p.__dict__["_may_raise"]
+    if q in memo:
+        return memo[q]
+    seen = seen or set()
+    if q in seen or depth > 6:
+        return False
+    seen.add(q)
+    f = cg._fn.get(q)
+    if f is None:
+        return False
+    res = any(isinstance(x, ast.Raise) for x in ast.walk(f.node))
+    if not res:
+        res = any(_may_raise(cg, c, depth + 1, seen) for c in cg.callees(f))
+    memo[q] = res
+    return res
+
+
 # ----------------------------------------------------------------------------------------- O9 load atomicity
 def load_atomicity(check: Check) -> None:
     p = check.program
@@ -577,9 +607,21 @@ def load_atomicity(check: Check) -> None:
         mutations = [n for n, c in cfg.all_calls() if isinstance(c.func, ast.Attribute) and c.func.attr in ("append", "extend", "insert")
                      and path_of(r.term(c.func.value, n)) == f"self.{attr}"]
         raises = [n for n in cfg.stmt_nodes() if isinstance(n.ast, ast.Raise)]
-        # unload precedes everything that can raise
-        unload_first = bool(unloads) and all(cfg.must_precede(unloads, x) for x in raises + stores)
-        check.require(unload_first, "O9", f"{qual}/unload-first", "the previous parse is discarded before anything can fail", loc(fn))
+        # unload precedes everything that can raise: explicit raises, and calls into functions that (transitively) raise
+        cg = _callgraph(p)
+        risky = []
+        for n in cfg.stmt_nodes():
+            if n in unloads:
+                continue
+            for c in cfg.calls_in(n):
+                targets = cg._call_targets(r, c, n)
+                if any(_may_raise(cg, q) for q in targets):
+                    risky.append(n)
+        late = [x for x in raises + stores + risky if not cfg.must_precede(unloads, x)]
+        unload_first = bool(unloads) and not late
+        check.require(unload_first, "O9", f"{qual}/unload-first", "the previous parse is discarded before anything can fail" if unload_first else
+                      f"`{unparse(late[0].ast)[:70]}` (line {late[0].lineno}) can fail before the previous parse is discarded: after a failed load "
+                      "the rule still reports loaded and is evaluated with its old antecedent/consequent", loc(fn, late[0] if late else fn.node))
         # the commit is last: no raise (explicit) and no call reachable after it
         commit_last = len(stores) == 1 and not mutations
         if commit_last:
